@@ -146,6 +146,12 @@ pub fn run(ctx: &Ctx) -> i32 {
                     if bad {
                         ctx.violation("angle_sol_surf", &format!("incidence {} expected {:.3} (lat {}, decl {}, hour angle {}, tilt {}, azimuth {})", got, exp, lat, dec, om, tilt, saz), json!({"lat": lat, "decl": dec, "hourangle": om, "tilt": tilt, "azimuth": saz}));
                     }
+                    // the crate-level entry point reports the same incidence angle
+                    let got2 = climate::sunsurface_angles(dec as f32, om as f32, climate::Location { latitude: lat as f32, longitude: 0.0, tz: 0 }, tilt, saz).angle as f64;
+                    let bad2 = if exp < 2.0 || exp > 178.0 { (got2.to_radians().cos() - cosi).abs() > 3e-4 } else { (got2 - exp).abs() > 0.05 };
+                    if bad2 {
+                        ctx.violation("sunsurface_angles.angle", &format!("incidence {} expected {:.3} (lat {}, decl {}, hour angle {}, tilt {}, azimuth {})", got2, exp, lat, dec, om, tilt, saz), json!({"lat": lat, "decl": dec, "hourangle": om, "tilt": tilt, "azimuth": saz}));
+                    }
                     if i == 0 {
                         // ray_dir_to_sun from the sun's azimuth/altitude gives the same vector
                         let alt = s[2].asin().to_degrees();
@@ -343,7 +349,7 @@ pub fn run(ctx: &Ctx) -> i32 {
     ctx.outcome_merge(&outcomes);
     ctx.finish(
         "model_checking",
-        &format!("all 365 (month, day) pairs against a calendar table (nday_from_md and nday_from_ymd); sun altitude/azimuth on the full grid latitude [-66,66] x declination [-23.45,23.45] x hour angle (-180,180) with step {} degrees against the spherical-astronomy sun vector (E,N,U) for altitudes in [1,89] (0.05 degrees; azimuth tolerance scaled by 1/cos(alt)); incidence angle for tilt 0..180 x surface azimuth -180..180 (15 degree grid) x 6 latitudes x 5 declinations x 47 hour angles against the angle between that sun vector and WallGeom::normal (also tied to ray_dir_to_sun; the normal also for a rectangle at five offsets in its plane x four starting corners); all 8760 hours of zonaD3.met: horizontal conservation (altitude >= 6), downward = albedo x global, beam >= 0 on the 9 standard orientations; the same three identities on the free-input grid latitude{{0,28,40.7,43.4,-35}} x day{{15,80,172,266,355}} x half hours 5..19 (model altitude >= 6) x dir{{0,20,150,250,500,900}} x dif{{0,40,150,400}} x albedo{{.2,0,.5}}; 32 zones x 9 classes x 12 months and July-day rows exist, non-negative; zone names round-trip; D3 July rows == weather file rows; D3 monthly rows == monthly sums of the radiation model on the shipped file; row label == class of the azimuth it was computed for", step),
+        &format!("all 365 (month, day) pairs against a calendar table (nday_from_md and nday_from_ymd); sun altitude/azimuth on the full grid latitude [-66,66] x declination [-23.45,23.45] x hour angle (-180,180) with step {} degrees against the spherical-astronomy sun vector (E,N,U) for altitudes in [1,89] (0.05 degrees; azimuth tolerance scaled by 1/cos(alt)); incidence angle for tilt 0..180 x surface azimuth -180..180 (15 degree grid) x 6 latitudes x 5 declinations x 47 hour angles (solar::angle_sol_surf and climate::sunsurface_angles) against the angle between that sun vector and WallGeom::normal (also tied to ray_dir_to_sun; the normal also for a rectangle at five offsets in its plane x four starting corners); all 8760 hours of zonaD3.met: horizontal conservation (altitude >= 6), downward = albedo x global, beam >= 0 on the 9 standard orientations; the same three identities on the free-input grid latitude{{0,28,40.7,43.4,-35}} x day{{15,80,172,266,355}} x half hours 5..19 (model altitude >= 6) x dir{{0,20,150,250,500,900}} x dif{{0,40,150,400}} x albedo{{.2,0,.5}}; 32 zones x 9 classes x 12 months and July-day rows exist, non-negative; zone names round-trip; D3 July rows == weather file rows; D3 monthly rows == monthly sums of the radiation model on the shipped file; row label == class of the azimuth it was computed for", step),
         true,
         json!({}),
     )
